@@ -194,6 +194,18 @@ Section BodyStructure.
     end.
 End BodyStructure.
 
+(* What is printed for a structure (parsing/response/fetch.py,
+   MultipartBodyStructure._parts): a multipart without any parsed sub-part is
+   shown with one empty text part (0 octets, 0 lines) *)
+Fixpoint bs_printed (b : bstruct) : bstruct :=
+  match b with
+  | BsMulti [] => BsMulti [BsText 0 0%Z]
+  | BsMulti subs => BsMulti (map bs_printed subs)
+  | BsMsg n l s => BsMsg n l (bs_printed s)
+  | BsText n l => BsText n l
+  | BsOther n => BsOther n
+  end.
+
 (* The octet count announced for a node of the structure, if any *)
 Definition bs_size (b : bstruct) : option nat :=
   match b with
